@@ -207,6 +207,10 @@ pub struct RunArgs {
     pub max_wall_s: u64,
 }
 
+pub fn last_panic() -> Option<(String, String)> {
+    LAST_PANIC.with(|c| c.borrow().clone())
+}
+
 pub fn install_panic_hook() {
     panic::set_hook(Box::new(|info| {
         let loc = info.location().map(|l| format!("{}:{}", l.file(), l.line())).unwrap_or_default();
@@ -355,9 +359,13 @@ pub fn run(prop: &dyn Prop, args: &RunArgs) -> i32 {
                 } else {
                     let short: String = msg.chars().take(160).collect();
                     cx.trace_note(&format!("PANIC {}", loc));
+                    let short_loc = match loc.find("/rust/") {
+                        Some(p) => loc[p + 1..].to_string(),
+                        None => loc.rsplit("registry/src/").next().unwrap_or(&loc).to_string(),
+                    };
                     cx.fail_sig(
                         "panic",
-                        format!("panic@{}", loc),
+                        format!("panic@{}", short_loc),
                         json!({"panic": short, "at": loc, "context": context}),
                     );
                 }
@@ -426,11 +434,11 @@ pub fn run(prop: &dyn Prop, args: &RunArgs) -> i32 {
                 }
             }
             let n = std::fs::read_dir(d).map(|it| it.filter_map(|e| e.ok()).filter(|e| e.file_name().to_string_lossy().starts_with(&format!("shard-{}.report", suffix))).count()).unwrap_or(0);
-            std::fs::write(format!("{}/shard-{}.report{}.json", d, suffix, n), serde_json::to_string(&report).unwrap()).expect("report");
+            std::fs::write(format!("{}/shard-{}.report{}.json", d, suffix, n), to_json(&report)).expect("report");
         }
         None => {
             if args.only.is_none() {
-                println!("LSMON-REPORT {}", serde_json::to_string(&report).unwrap());
+                println!("LSMON-REPORT {}", to_json(&report));
             } else {
                 println!("case {:?}: {} oracle evaluations, {} violation(s)", args.only, cx.evals, cx.viols.len());
             }
@@ -464,4 +472,72 @@ pub fn merge_keys(files: &[String]) -> usize {
     all.sort_unstable();
     all.dedup();
     all.len()
+}
+
+/// Minimal JSON writer (serde_json 1.0.48's own number formatting goes through an old `itoa`
+/// that Miri rejects as undefined behaviour; nothing of serde_json's serialiser is used).
+pub fn to_json(v: &Value) -> String {
+    let mut out = String::new();
+    write_json(v, &mut out);
+    out
+}
+
+fn write_json(v: &Value, out: &mut String) {
+    match v {
+        Value::Null => out.push_str("null"),
+        Value::Bool(b) => out.push_str(if *b { "true" } else { "false" }),
+        Value::Number(n) => {
+            if let Some(u) = n.as_u64() {
+                out.push_str(&format!("{}", u));
+            } else if let Some(i) = n.as_i64() {
+                out.push_str(&format!("{}", i));
+            } else {
+                let f = n.as_f64().unwrap_or(0.0);
+                if f.is_finite() {
+                    out.push_str(&format!("{:?}", f));
+                } else {
+                    out.push_str("null");
+                }
+            }
+        }
+        Value::String(text) => write_json_str(text, out),
+        Value::Array(a) => {
+            out.push('[');
+            for (i, x) in a.iter().enumerate() {
+                if i > 0 {
+                    out.push(',');
+                }
+                write_json(x, out);
+            }
+            out.push(']');
+        }
+        Value::Object(m) => {
+            out.push('{');
+            for (i, (k, x)) in m.iter().enumerate() {
+                if i > 0 {
+                    out.push(',');
+                }
+                write_json_str(k, out);
+                out.push(':');
+                write_json(x, out);
+            }
+            out.push('}');
+        }
+    }
+}
+
+fn write_json_str(text: &str, out: &mut String) {
+    out.push('"');
+    for c in text.chars() {
+        match c {
+            '"' => out.push_str("\\\""),
+            '\\' => out.push_str("\\\\"),
+            '\n' => out.push_str("\\n"),
+            '\r' => out.push_str("\\r"),
+            '\t' => out.push_str("\\t"),
+            c if (c as u32) < 0x20 => out.push_str(&format!("\\u{:04x}", c as u32)),
+            c => out.push(c),
+        }
+    }
+    out.push('"');
 }
